@@ -63,6 +63,9 @@ def check(run, project):
     # L11 (= C11-A1): `example` prints what the events rebuilt from the decoded object say; the members a message may lack
     # altogether (no sessions, failure) must be exactly those the object-to-events conversion leaves out, else a printed
     # example carries a field its bytes do not have
+    # L12: `convert a b` / `type a b` decode the bytes of ALL files given, in order
+    from .shared import reads_every_file
+    reads_every_file(run, project, "L12", what="convert / type answer for the first file only and still exit 0")
     from . import c11
     try:
         c11.check(RuleView(run, "A1", "L11"), project)
